@@ -124,14 +124,18 @@ def check_case(case, workdir=None):
         pr.cleanup()
 
 
-def case_strategy():
-    base = st.one_of(gen_cfg.model_and_spec(force=['many_ports', 'injected'], want_mixed=True),
-                     gen_cfg.model_and_spec(want_mc=True, force=['many_ports']),
-                     gen_cfg.model_and_spec(want_mc=True),
-                     gen_cfg.model_and_spec(want_mc=True, force=['prefix_ports', 'many_ports']),
-                     gen_cfg.model_and_spec(force=['prefix_ports', 'many_ports'], want_mixed=True),
-                     gen_cfg.model_and_spec(force=['shared_itf', 'many_ports']),
-                     gen_cfg.model_and_spec())
+def strata():
+    return [gen_cfg.model_and_spec(force=['many_ports', 'injected'], want_mixed=True),
+            gen_cfg.model_and_spec(want_mc=True, force=['many_ports']),
+            gen_cfg.model_and_spec(want_mc=True),
+            gen_cfg.model_and_spec(want_mc=True, force=['many_provides']),
+            gen_cfg.model_and_spec(want_mc=True, force=['prefix_ports', 'many_ports']),
+            gen_cfg.model_and_spec(force=['prefix_ports', 'many_ports'], want_mixed=True),
+            gen_cfg.model_and_spec(force=['shared_itf', 'many_ports']),
+            gen_cfg.model_and_spec()]
+
+
+def with_clients(base):
     return st.tuples(base, st.integers(0, 3)).map(lambda t: {**t[0], 'clients': t[1]})
 
 
@@ -142,10 +146,10 @@ def run(ctx):
         if ctx.replay.get('clause') == name:
             ctx._run_one(name, lambda c: check_case(c), ctx.replay['case'])  # pylint: disable=protected-access,unnecessary-lambda
         return
-    from vf.draw import draw_cases
+    from vf.draw import draw_stratified
     from vf.runner import case_hash, load_regress
-    cases = load_regress(ctx.prop, name) + draw_cases(case_strategy(), 16 if ctx.quick else 250,
-                                                      ctx.seed)
+    cases = load_regress(ctx.prop, name) + draw_stratified(strata(), 16 if ctx.quick else 250,
+                                                           ctx.seed, wrap=with_clients)
     done = {}
 
     def check(case, workdir):
